@@ -358,6 +358,8 @@ def rule_wiring(chk):
     c03.rule_top(chk, tpl)
     # NP_DEST / NP_SRC of the generated loops are what the array says now: the wrapper's size() asks the array on every call (rule shared with C03 / C04)
     c03.rule_wrapper(chk, tpl)
+    rule_reduce_binding(chk, c03, tpl)
+    rule_attribute_types(chk)
     # the wrapper that `src.X` / `dst.X` resolve through must (re)bind every property AND every constant whenever an array is set
     pick = c03.simplest
     lines2 = MT.skeleton(tpl.fn('__template__'), choose=pick)
@@ -666,6 +668,91 @@ def rule_division(chk):
     if not n:
         chk.holds('python-and-c-division-agree', 'all-hooks', file=EQ, func='hooks', line=0, detail='%d divisions in equation / stepper hooks: none has two integer operands (or the quotient is exact)' % nd)
     chk.floor('divisions in hooks', nd, 300)
+
+
+def rule_reduce_binding(chk, c03, tpl):
+    """what `parallel_reduce_array` means inside a transpiled reduce(): the identity when the run is serial (each process reduces its own particles, there is nothing to combine - an
+    array constant must come back as the array it is), the MPI reduction when it is distributed.  Decided by lowering the module header of the evaluator template once per mode"""
+    want = {'serial': 'dummy_reduce_array', 'mpi': 'mpi_reduce_array'}
+    for mode in ('serial', 'mpi'):
+        def choose(test, mode=mode):
+            t, neg = c03.positive(test)
+            t2 = t.replace(' ', '').replace('"', "'")
+            if 'object.mode' in t2 and ('==' in t2 or '!=' in t2):
+                eq = ("=='%s'" % mode) in t2 if '==' in t2 else ("!='%s'" % mode) not in t2
+                known = any(("'%s'" % m_) in t2 for m_ in want)
+                v = eq if known else False
+                return (not v) if neg else v
+            return c03.simplest(test)
+        try:
+            lines, table, mod = c03.shape(tpl, '__template__', choose)
+        except Exception as e:          # noqa
+            chk.undecided('reduce-binding', mode, file=c03.TPL, func='<module header>', line=0, detail='header not lowered: %s' % e)
+            continue
+        bound = None
+        node_ = None
+        for st in mod.body:
+            if isinstance(st, ast.ImportFrom):
+                for a_ in st.names:
+                    if (a_.asname or a_.name) == 'parallel_reduce_array':
+                        bound, node_ = a_.name, st
+            elif isinstance(st, ast.Assign) and any(U(t_) == 'parallel_reduce_array' for t_ in st.targets):
+                bound, node_ = U(st.value), st
+        chk.decide(bound == want[mode], 'reduce-binding', mode, node=node_ or mod, file=c03.TPL, func='<module header>',
+                   detail_bad='in %s mode `parallel_reduce_array` of the generated module is %s (expected %s): a transpiled reduce() that sends an array constant through it gets %s' % (
+                       mode, bound, want[mode], 'one scalar broadcast into every entry' if mode == 'serial' else 'only its own process\'s share'),
+                   detail_ok='parallel_reduce_array is %s' % bound)
+
+
+def rule_attribute_types(chk):
+    """the compiled copy of an equation types its attributes by the values the Python instance holds after __init__ (int -> long, float -> double): an attribute that a hook, reduce()
+    or converged() later assigns a real number must start out as a float - set to an int literal it becomes a C long and the compiled code truncates what it stores there"""
+    import glob as _glob
+    n_int, bad = 0, []
+    for p_ in sorted(_glob.glob(os.path.join(REPO, 'pysph/sph/**/*.py'), recursive=True)):
+        if '/tests/' in p_:
+            continue
+        rel = os.path.relpath(p_, REPO)
+        try:
+            t = M.py(rel)
+        except SyntaxError:
+            continue
+        for c in M.classes(t):
+            meths = M.methods(c)
+            ini = meths.get('__init__')
+            if ini is None:
+                continue
+            ints = {}
+            for a in ast.walk(ini):
+                if isinstance(a, ast.Assign) and isinstance(a.value, ast.Constant) and isinstance(a.value.value, int) and not isinstance(a.value.value, bool):
+                    for tg in a.targets:
+                        if isinstance(tg, ast.Attribute) and isinstance(tg.value, ast.Name) and tg.value.id == 'self':
+                            ints[tg.attr] = a
+            n_int += len(ints)
+            for mn, fn in sorted(meths.items()):
+                if mn == '__init__' or not ints:
+                    continue
+                for a in ast.walk(fn):
+                    tg = v = None
+                    if isinstance(a, ast.Assign) and len(a.targets) == 1:
+                        tg, v = a.targets[0], a.value
+                    elif isinstance(a, ast.AugAssign):
+                        tg, v = a.target, a.value
+                    if tg is None or not (isinstance(tg, ast.Attribute) and isinstance(tg.value, ast.Name) and tg.value.id == 'self' and tg.attr in ints):
+                        continue
+                    real = any(isinstance(x, ast.BinOp) and isinstance(x.op, ast.Div) for x in ast.walk(v)) or \
+                        any(isinstance(x, ast.Constant) and isinstance(x.value, float) for x in ast.walk(v)) or \
+                        any(isinstance(x, ast.Subscript) and isinstance(x.value, ast.Name) and x.value.id[:2] in ('d_', 's_') for x in ast.walk(v))
+                    if real:
+                        bad.append((rel, c.name, mn, tg.attr, a, ints[tg.attr]))
+    chk.floor('integer-initialised equation attributes', n_int, 8)
+    if not bad:
+        chk.holds('attribute-types', 'int-initialised-attributes-stay-integral', file='pysph/sph/equation.py', func='Equation subclasses',
+                  detail='%d attributes initialised with an int literal: none is assigned a real-valued expression by another method' % n_int)
+    for rel, cname, mn, attr, a, ia in bad:
+        chk.violated('attribute-types', '%s.%s' % (cname, attr), node=ia, file=rel, func='%s.__init__' % cname,
+                     detail='self.%s is initialised with the int literal in `%s` but %s.%s assigns it `%s`: the compiled equation declares it long and truncates the value '
+                            '(convergence tests and the next pass then see 0)' % (attr, U(ia)[:50], cname, mn, U(a)[:60]))
 
 
 def main(chk):
